@@ -5,7 +5,7 @@ import json, subprocess
 hooks = ["4a0f203", "8fe147a"]
 P = {
  "C01": ("exploration", "3.C01", "reference-model monitor over agent run histories (plan facade + real binary e2e)",
-  "Every installed state produced by the real reader/compare/writer pipeline (L1: 3 000+ generated histories; L2: the release binary over TLS against a fake Junos and fake IRRd) is applied to a reference Junos merge model and checked for convergence to the evaluated sets, absence of unmanaged leftovers (including runs in which no candidate is left or none evaluates while a delete is due), read-back by the agent's own reader and idempotence; some L2 runs meet a router-side error on one of their loads and must then report failure or have converged all the same. Held-on-what-was-observed; the Junos merge semantics are the harness' model.",
+  "Every installed state produced by the real reader/compare/writer pipeline (L1: 3 000+ generated histories, a few of them with one policy of ~10 000 ranges that withdraws thousands at once; L2: the release binary over TLS against a fake Junos and fake IRRd) is applied to a reference Junos merge model and checked for convergence to the evaluated sets, absence of unmanaged leftovers (including runs in which no candidate is left or none evaluates while a delete is due), read-back by the agent's own reader and idempotence; some L2 runs meet a router-side error on one of their loads and must then report failure or have converged all the same. Held-on-what-was-observed; the Junos merge semantics are the harness' model.",
   "Junos merge semantics and get-config rendering are modelled (harness/src/junos.rs); RPSL oracle = irrfake reference evaluator."),
  "C02": ("exploration", "3.C02", "accept-set invariant checked after every single update on a reference model",
   "Each update payload emitted by the real pipeline is applied on its own (emitted and permuted order) to the reference model; after each, every accepting term must have exactly one family, >=1 explicit prefix-length-range filters all inside the evaluated set, and the statement must end in reject; element paths and the set of operations on the wire are checked too; one run in eight starts from an installed policy that somebody edited by hand (a match type the agent never writes): the agent may refuse the whole run, but whatever it sends must not leave that filter accepting.",
@@ -20,17 +20,17 @@ P = {
   "The real Session::rpc / reply futures run over an in-memory transport under a scheduler that owns every poll, delivery, send completion; exhaustive DFS for n<=2 (quick) / n<=3 (thorough), plus 20k / 2M random schedules with bogus (unknown-id, duplicate) replies; every outcome is compared with the tag the server put in the reply of that message-id (a duplicate that arrives after the request's own reply must never be delivered); stuck sets are detected at quiescence.",
   "spurious polls are not explored; the scheduler stage delivers whole messages; the real-transport stage (600 / 30k sessions over loopback TLS, SSH and a child process: 1-3 batches of 2-6 pipelined requests answered in a random permutation cut into random units, futures awaited in order, in reverse or as spawned tasks on a 4-thread runtime) covers the transports' own buffering underneath the demultiplexer; the thorough tier repeats that stage in a ThreadSanitizer build (std included)."),
  "C06": ("exploration", "3.C06", "real loopback TLS/SSH/child-process peers with scripted segmentation; delivery witness from the client's own trace",
-  "Every cut position inside every delimiter, cuts around delimiters, k messages per unit, the peer stopping to send right after its last message, 1-byte dribble, look-alike bodies, 64 KiB bodies and random multi-cuts per transport (thorough: every single cut position); after each unit the peer waits until the client's trace shows the bytes consumed and checks that every complete message was delivered without further traffic.",
+  "Every cut position inside every delimiter, cuts around delimiters, k messages per unit, the peer stopping to send right after its last message, the stream pausing exactly at typical buffer sizes (1 KiB … 64 KiB, -1/0/+1), 1-byte dribble, look-alike bodies, 64 KiB bodies and random multi-cuts per transport (thorough: every single cut position); after each unit the peer waits until the client's trace shows the bytes consumed and checks that every complete message was delivered without further traffic.",
   "client trace events report what was read; non-reproducible segmentations are not_exercised, never verdicts."),
  "C07": ("fault_enumeration", "3.C07", "scripted peer close at every point x manner x transport in killable worker processes; spin/hang witnesses",
-  "Close points {before/inside hello, idle, inside reply, between request and reply, after reply, while <close-session> is pending} x manners {clean, SSH channel close, abrupt (RST), fin-only (TCP FIN without TLS close_notify / SSH goodbye)} x outstanding {0,1,3} on TLS, SSH and child process; spin = >=1000 zero-length reads or >=80% CPU after the close, hang = watchdog with idle CPU confirmed 3/3; an in-memory stage breaks the write direction, the read direction or both (independent pipes, half-closed connections) before the hello and with 0-3 requests outstanding and drives every operation to quiescence.",
+  "Close points {before/inside hello, idle, inside reply, between request and reply, after reply, while <close-session> is pending} x manners {clean, SSH channel close, abrupt (RST), fin-only (TCP FIN without TLS close_notify / SSH goodbye), child exiting while a helper keeps its stderr} x outstanding {0,1,3} on TLS, SSH and child process; spin = >=1000 zero-length reads or >=80% CPU after the close, hang = watchdog with idle CPU confirmed 3/3; an in-memory stage breaks the write direction, the read direction or both (independent pipes, half-closed connections) before the hello and with 0-3 requests outstanding and drives every operation to quiescence.",
   "hang verdicts need 3/3 confirmation, otherwise inconclusive."),
  "C08": ("exploration", "3.C08", "generated reply grammar through the real reply futures, oracle on severities / positive indication / error list",
-  "20k (quick) / 2M (thorough) reply documents with 0-4 rpc-errors around the positive indication at top level and inside load-configuration-results, for EmptyReply, DataReply, BareReply and load-configuration replies; repeated identical adjacent errors, Junos-native <xnm:error> elements in bare replies; every reported error's type, tag, severity, app-tag, path and message are compared with the reply's, in order; 400 / 40k cases in which an error reply already read by another request's future is followed by a second, positive reply bearing the same message-id.", "reply grammar of RFC 6241 / Junos as generated by harness/src/c08.rs."),
+  "20k (quick) / 2M (thorough) reply documents with 0-4 rpc-errors around the positive indication at top level and inside load-configuration-results, for EmptyReply, DataReply, BareReply and load-configuration replies; repeated identical adjacent errors, severities written as CDATA / character reference / with a comment, two <rpc-reply> roots in one frame, Junos-native <xnm:error> elements in bare replies; every reported error's type, tag, severity, app-tag, path and message are compared with the reply's, in order; 400 / 40k cases in which an error reply already read by another request's future is followed by a second, positive reply bearing the same message-id.", "reply grammar of RFC 6241 / Junos as generated by harness/src/c08.rs."),
  "C09": ("exploration", "3.C09", "capability matrix x request recipes against an RFC 6241 section 8 table, both directions",
-  "Capability sets (quick: 300 sampled; thorough: all 9 216) x 351 request recipes through the public builders on a real session; bytes on the wire are re-parsed and every feature present must be permitted, and every permitted recipe must be sent; 11 recipes leave a required parameter out (forward direction only: whatever reaches the wire must be permitted); a URL-scheme stage (3k / 150k cases) advertises scheme names of the whole RFC 3986 grammar (letters, digits, + - .) and sends URLs with advertised, near-miss and unrelated schemes.", "the RFC table transcribed in harness/src/c09.rs; explicit defaults are dont_care."),
+  "Capability sets (quick: 300 sampled; thorough: all 9 216) x 351 request recipes through the public builders on a real session; bytes on the wire are re-parsed and every feature present must be permitted, and every permitted recipe must be sent; one capability set in seven is advertised inside a hello with 100-1000 further module capabilities; 11 recipes leave a required parameter out (forward direction only: whatever reaches the wire must be permitted); a URL-scheme stage (3k / 150k cases) advertises scheme names of the whole RFC 3986 grammar (letters, digits, + - .) and sends URLs with advertised, near-miss and unrelated schemes.", "the RFC table transcribed in harness/src/c09.rs; explicit defaults are dont_care."),
  "C10": ("exploration", "3.C10", "adversarial parameter values re-parsed by an independent strict XML parser",
-  "30k (quick) / 3M (thorough) requests over 25 value slots (each parameter alone and with other legal parameters set alongside) + agent payloads with metacharacters, quotes, ]]>, the delimiter, CR/LF/TAB, non-ASCII, empty and long values; well-formedness, single trailing delimiter, exact value recovery, verbatim fragments; all requests of a run are serialised on one thread, refused ones in between, so state kept between messages shows up in the next one (and in the periodic re-establishment).", "server = conforming XML 1.0 parser; own parser cross-checked by unit tests."),
+  "30k (quick) / 3M (thorough) requests over 25 value slots (each parameter alone and with other legal parameters set alongside); a real-transport stage sends 100 B - 1.2 MB (thorough 5 MB) payloads over TLS, SSH and a child process and has the peer check framing, well-formedness and payload + agent payloads with metacharacters, quotes, ]]>, the delimiter, CR/LF/TAB, non-ASCII, empty and long values; well-formedness, single trailing delimiter, exact value recovery, verbatim fragments; all requests of a run are serialised on one thread, refused ones in between, so state kept between messages shows up in the next one (and in the periodic re-establishment).", "server = conforming XML 1.0 parser; own parser cross-checked by unit tests."),
  "C11": ("exploration", "3.C11", "differential testing against an independent RPSL evaluator over generated IRR databases (in-process, bgpfu binary, agent binary)",
   "Generated databases (nested/cyclic sets, v4-only/v6-only/no routes, duplicates) x generated expressions; output ranges compared pointwise with the reference on boundary probes; the agent's installed filters likewise.", "fake IRRd fidelity; parenthesised expressions; dependency limits (NOT on long prefixes, cross-family ^n-m) excluded."),
  "C12": ("exploration", "3.C12", "generated server hellos in both arrival orders + framing check over real transports",
